@@ -469,6 +469,8 @@ def run(ctx):
             tree_step(ctx, prog, fn, d)
         else:
             list_step(ctx, prog, fn, d)
-    if n < 4:
-        ctx.anchor_missing('ENDSENT', 'implementations of index_after / index_before', ['C09', 'C13'], n, 4)
+    for m in ('index_after', 'index_before'):
+        for kind, adts in (('tree', prog.tree_adts), ('list', prog.list_adts)):
+            if not any(f.trait_method() == m and f.self_adt in adts for f in prog.fns.values()):
+                ctx.anchor_missing('ENDSENT', '%s of the set %s' % (m, kind), ['C09', 'C13'] if kind == 'list' else ['C09'], 0, 1)
     run_handles(ctx)
